@@ -500,6 +500,13 @@ static void dump_solution(solver &s, double secs)
 
 #ifdef VERIF_EXECUTOR
 // ---- executor mode (C19): tick-by-tick execution with a scripted client -------------------------------------------------
+// scripted client (--xscript): the start / end of the atom of rank r (rank among the plan's atoms, by identifier) is delayed
+// the first 'count' times it is proposed, by 'delay' units; at tick 'fail_tick' the atom of rank 'fail_rank' fails
+static bool g_scripted = false;
+static std::map<int, std::pair<int, long>> g_xs_start, g_xs_end;
+static int g_fail_tick = -1, g_fail_rank = -1;
+static std::map<const atom *, int> g_rank;
+
 struct exec_client : public executor_listener
 {
     solver &s;
@@ -538,9 +545,9 @@ struct exec_client : public executor_listener
         std::unordered_map<const atom *, smt::rational> req;
         std::string r = "[";
         for (const auto &a : ordered(atms))
-            if ((int)(rng() % 100) < p_delay_start)
+            if (g_scripted ? (g_rank.count(a) && g_xs_start.count(g_rank.at(a)) && g_xs_start.at(g_rank.at(a)).first-- > 0) : ((int)(rng() % 100) < p_delay_start))
             {
-                const long d = 1 + (long)(rng() % 2);
+                const long d = g_scripted ? g_xs_start.at(g_rank.at(a)).second : 1 + (long)(rng() % 2);
                 req.emplace(a, smt::rational(d));
                 r += (r.size() > 1 ? ",[" : "[") + std::to_string(id_of(a)) + "," + std::to_string(d) + "]";
             }
@@ -557,9 +564,9 @@ struct exec_client : public executor_listener
         std::unordered_map<const atom *, smt::rational> req;
         std::string r = "[";
         for (const auto &a : ordered(atms))
-            if ((int)(rng() % 100) < p_delay_end)
+            if (g_scripted ? (g_rank.count(a) && g_xs_end.count(g_rank.at(a)) && g_xs_end.at(g_rank.at(a)).first-- > 0) : ((int)(rng() % 100) < p_delay_end))
             {
-                const long d = 1 + (long)(rng() % 2);
+                const long d = g_scripted ? g_xs_end.at(g_rank.at(a)).second : 1 + (long)(rng() % 2);
                 req.emplace(a, smt::rational(d));
                 r += (r.size() > 1 ? ",[" : "[") + std::to_string(id_of(a)) + "," + std::to_string(d) + "]";
             }
@@ -649,6 +656,27 @@ int main(int argc, char **argv)
             x_pf = atoi(argv[i + 4]);
             x_ticks = atoi(argv[i + 5]);
             i += 5;
+        }
+        else if (!strcmp(argv[i], "--xscript") && i + 2 < argc)
+        { // e.g. s0=2x2,e1=1x1,f=6:1  followed by the number of ticks
+            exec_mode = true;
+            g_scripted = true;
+            std::stringstream ss(argv[i + 1]);
+            std::string item;
+            while (std::getline(ss, item, ','))
+            {
+                if (item.size() > 2 && item[0] == 'f' && item[1] == '=')
+                    sscanf(item.c_str(), "f=%d:%d", &g_fail_tick, &g_fail_rank);
+                else if (item.size() > 3 && (item[0] == 's' || item[0] == 'e'))
+                {
+                    int r = 0, c = 0;
+                    long d = 1;
+                    sscanf(item.c_str() + 1, "%d=%dx%ld", &r, &c, &d);
+                    (item[0] == 's' ? g_xs_start : g_xs_end)[r] = {c, d};
+                }
+            }
+            x_ticks = atoi(argv[i + 2]);
+            i += 2;
         }
         else if (!strcmp(argv[i], "--script"))
             as_script = true;
@@ -774,6 +802,12 @@ int main(int argc, char **argv)
             g_phase = "execute";
             std::mt19937 frng(x_seed * 7919u + 13u);
             emit_plan(s, ex);
+            {
+                auto ra = relevant_atoms(s);
+                std::sort(ra.begin(), ra.end(), [](atom *a, atom *b) { return id_of(a) < id_of(b); });
+                for (size_t r = 0; r < ra.size(); ++r)
+                    g_rank[ra[r]] = (int)r;
+            }
             bool alive = true;
             for (int t = 0; t < x_ticks && alive; ++t)
             {
@@ -782,13 +816,21 @@ int main(int argc, char **argv)
                 try
                 {
                     // a failure of a not yet ended atom, injected between two ticks
-                    if (x_pf > 0 && (int)(frng() % 100) < x_pf)
+                    if (g_scripted ? t == g_fail_tick : (x_pf > 0 && (int)(frng() % 100) < x_pf))
                     {
                         auto ra = relevant_atoms(s);
                         std::sort(ra.begin(), ra.end(), [](atom *a, atom *b) { return id_of(a) < id_of(b); });
+                        if (g_scripted)
+                        { // the scripted victim, if it is still part of the plan
+                            std::vector<atom *> only;
+                            for (auto *a : ra)
+                                if (g_rank.count(a) && g_rank.at(a) == g_fail_rank)
+                                    only.push_back(a);
+                            ra = only;
+                        }
                         if (!ra.empty())
                         {
-                            atom *victim = ra[frng() % ra.size()];
+                            atom *victim = g_scripted ? ra[0] : ra[frng() % ra.size()];
                             fprintf(g_out, "{\"e\":\"x_failure\",\"atoms\":[%d]}\n", id_of(victim));
                             fflush(g_out);
                             ex.failure({victim});
